@@ -266,4 +266,26 @@ def rule_e(ctx):
     return r
 
 
-RULES = [rule_a, rule_b, rule_c, rule_d, rule_e]
+
+def rule_f(ctx):
+    r = RuleResult("C16-f", "verify_compatible_numbers compares *every pair* of numeric arguments (possible compatibility is not transitive: %, unknown and unitless numbers are "
+                   "compatible with everything): the has_possibly_compatible_units test sits inside two nested loops over the arguments")
+    from . import loops as _loops
+    prog = ctx.prog()
+    b = prog.one("value::calculation::SassCalculation::verify_compatible_numbers")
+    nl = _loops.natural_loops(b)
+    cs = [c for c in b.calls() if (c.name() or "").endswith("has_possibly_compatible_units")]
+    if not cs:
+        raise AnchorMissing("verify_compatible_numbers: no has_possibly_compatible_units test")
+    for c in cs:
+        depth = sum(1 for h, blk in nl.items() if c.bb in blk)
+        key = "verify_compatible_numbers|all-pairs"
+        if depth >= 2:
+            r.ok(key, loop_depth=depth)
+        else:
+            r.violate(key, "verify_compatible_numbers tests compatibility at loop depth %d (not for every pair): `min(10%%, 1px, 1s)` is accepted because both lengths and times "
+                      "are possibly compatible with the leading percentage" % depth, c.loc())
+    return r
+
+
+RULES = [rule_a, rule_b, rule_c, rule_d, rule_e, rule_f]
